@@ -91,7 +91,8 @@ def process_graphql_query(
     """
     schema.validate()
 
-    instrumentation = instrumentation or Instrumentation()
+    if instrumentation is None:
+        instrumentation = Instrumentation()
     runtime = runtime or BlockingRuntime()
 
     instrumentation.on_query_start()
